@@ -226,7 +226,7 @@ RULES["C15"] = ("byte strings (128..4000 bytes, >= the test's minimum; odd and e
 PROPS["C15"] = {
     "level": "exploration",
     "quick": shards(8, "TestC15", 1200, floor=300) + [S("TestC15Sweep", floor=50)],
-    "thorough": shards(14, "TestC15", 40000, floor=10000, timeout=3400) + [S("TestC15Sweep", floor=50)],
+    "thorough": shards(14, "TestC15", 12000, floor=3000, timeout=3400) + [S("TestC15Sweep", floor=50)],
     "assumptions": ["the mapping 'i-th test of the standard' -> exported function is the harness's table (GM/T 0005-2021 numbering)"],
 }
 
